@@ -56,8 +56,13 @@ func (obj Channel) Pop() slip.Object {
 	return <-obj
 }
 
-// Close the channel.
+// Close the channel. Closing a channel that is already closed is an error.
 func (obj Channel) Close() {
+	defer func() {
+		if rec := recover(); rec != nil {
+			panic(slip.ErrorNew(slip.NewScope(), 0, "channel %s is already closed", obj))
+		}
+	}()
 	close(obj)
 }
 
